@@ -417,6 +417,13 @@ func materialize(l layoutDesc) (dirs []string, view []any) {
 				s := templateSpec(f)
 				writeSpecFile(path, s)
 				ev["spec"] = specToProto(s)
+			case "schemaonly":
+				// valid for the library, invalid for the builtin schema (cli stream only, where the validator is installed)
+				g := f
+				g.Kind = "valid"
+				sp := templateSpec(g)
+				sp.ContainerEdits.Hooks = append(sp.ContainerEdits.Hooks, &specs.Hook{HookName: "poststop", Path: "/bin/t", Timeout: intp(-1)})
+				writeSpecFile(path, sp)
 			case "noperm":
 				g := f
 				g.Kind = "valid"
